@@ -3,11 +3,12 @@
    types; andb/orb inlined) and ExtrOcamlString (ascii => char, string => char list). nat, N, Z, positive
    stay the extracted inductive datatypes. *)
 From Coq Require Import Extraction ExtrOcamlBasic ExtrOcamlString.
-From GV Require Import Base.Util Spec.Smiles Spec.Chem Spec.Iso.
+From GV Require Import Base.Util Spec.Smiles Spec.Chem Spec.Iso Model.PyLite Gen.Converter.
 Extraction Language OCaml.
 Extraction "../_build/extracted/gv.ml"
   Util.s2l Util.nat2str Util.str2nat
   Smiles.sem_str Smiles.lexS
   Chem.formula Chem.charge Chem.n_rings Chem.n_components Chem.n_heavy Chem.mol_valid Chem.smiles_valid
   Chem.no_markers Chem.elements_ok Chem.all_valences_ok Chem.no_empty_branch Chem.total_h Chem.degree Chem.no_dup_bonds
+  PyLite.call PyLite.call_gen Converter.program Converter.generator_functions PyLite.py_strip
   Iso.same_molecule Iso.same_constitution Iso.mirror_image Iso.iso_profiles Iso.strip_h.
